@@ -20,7 +20,8 @@ RULE = ('bodies: random bytes; grammar-mutated multipart (truncation at every of
         'non-object, empty, non-UTF-8, nested to depth 100000, NaN, huge numbers); urlencoded junk; x framing (Content-Length exact/short/long/not a number, '
         'chunked valid and malformed) x max_memfile_size x accessor {forms, files, POST, params, json, body}. Non-trivial = the body is not a '
         'well-formed instance of its content type; distinct = distinct (content type, body, framing, accessor, buffer).')
-REQUIRED = ['requests_with_max_body_size', 'malformed_content_length_header', 'cpu_budget_requests', 'requests', 'status_2xx', 'status_4xx', 'multipart_mutations', 'truncations', 'json_bodies', 'urlencoded_bodies', 'random_bytes_bodies',
+PYOPT = {'quick': 1, 'thorough': 1}     # one unit of every kind is also served by an interpreter started with -O (assert statements compiled out)
+REQUIRED = ['units_run_under_python_-O', 'requests_with_max_body_size', 'malformed_content_length_header', 'cpu_budget_requests', 'requests', 'status_2xx', 'status_4xx', 'multipart_mutations', 'truncations', 'json_bodies', 'urlencoded_bodies', 'random_bytes_bodies',
             'chunked_malformed_framing', 'delivered_fields_checked', 'step_budget_armed', 'accessor_forms', 'accessor_files', 'accessor_json',
             'accessor_body', 'accessor_POST', 'header_mutations', 'content_type_mutations']
 ASSUMPTIONS = ['a statement that never returns from C code (regular-expression engine) is invisible to LINE events: pathological header shapes are served in a child under RLIMIT_CPU = 40 CPU seconds (measured need < 2); CPU time, not wall-clock',
